@@ -133,40 +133,58 @@ variable [Add α] [Sub α] [OfNat α 0]
 
 /-! ### merging: the output is the inputs one after the other (`blocks`) -/
 
-/-- the offset of a block, read off its first row -/
-def offsetOf : Motl α → Motl α → α
-  | p :: _, q :: _ => q.object_id - p.object_id
+/-- the offset of a block, read off its first row (`g` = what loading does to the input's ids) -/
+def offsetOf (g : α → α) : Motl α → Motl α → α
+  | p :: _, q :: _ => q.object_id - g p.object_id
   | _, _ => 0
 
-/-- output block `b` is input `m`: same rows in the same order up to the ids (and filling), and all
-object numbers moved by one offset -/
-def blockOkB (fill : α → α) (m b : Motl α) : Bool :=
-  forall2B (fun p q => sameB eqv fill isIdField p q && q.object_id == p.object_id + offsetOf m b) m b
+/-- output block `b` is input `m`: same rows in the same order up to the ids (a missing value possibly
+replaced by `g`), and all object numbers — read after loading, `g p.object_id` — moved by one offset -/
+def blockOkB (g : α → α) (m b : Motl α) : Bool :=
+  forall2B (fun p q => sameB eqv g isIdField p q && q.object_id == g p.object_id + offsetOf g m b) m b
+
+/-- the two id fields of a row as they are after loading (`g` = `fill` for a bare DataFrame, identity for a `Motl`) -/
+def loadIds (g : α → α) (p : Particle α) : Particle α :=
+  (p.set .object_id (g p.object_id)).set .subtomo_id (g p.subtomo_id)
 
 def disjointObjB (b c : Motl α) : Bool := b.all (fun p => c.all (fun q => !(p.object_id == q.object_id)))
 
-def mergeRenumberClauses (fill : α → α) (nat : Nat → α) (ins : List (Motl α)) (out : Motl α) : List (String × Bool) :=
-  match splitBy ins out with
+/-- what `Motl.load` may do to the cells of ONE input of a merge: replace missing values if the input
+is handed over as a bare DataFrame (`df = true`), nothing if it is a `Motl` -/
+def fillIf (fill : α → α) (df : Bool) : α → α := if df then fill else (fun v => v)
+
+/-- inputs are tagged: `(handed over as a bare DataFrame?, rows)`; only tagged inputs may come back
+with missing values filled, and the new subtomogram numbers are 1..N IN ROW ORDER -/
+def mergeRenumberClauses (fill : α → α) (nat : Nat → α) (ins : List (Bool × Motl α)) (out : Motl α) : List (String × Bool) :=
+  match splitBy (ins.map (·.2)) out with
   | none => [("other-fields-unchanged", false)]
   | some bs =>
-    [("merge-keeps-each-inputs-grouping", forall2B (blockOkB eqv fill) ins bs),
+    [("merge-keeps-each-inputs-grouping", forall2B (fun x b => blockOkB eqv (fillIf fill x.1) x.2 b) ins bs),
      ("merge-object-numbers-never-collide", pairwiseB disjointObjB bs),
      ("merge-renumber-subtomo-1..N",
-        (out.map (·.subtomo_id)).isPerm ((List.range ins.flatten.length).map (fun i => nat (i + 1))))]
+        forall2B (fun (a b : α) => a == b) (out.map (·.subtomo_id))
+          ((List.range (ins.map (·.2)).flatten.length).map (fun i => nat (i + 1))))]
 
-def checkMergeRenumber (fill : α → α) (nat : Nat → α) (ins : List (Motl α)) (out : Motl α) : Bool :=
+def checkMergeRenumber (fill : α → α) (nat : Nat → α) (ins : List (Bool × Motl α)) (out : Motl α) : Bool :=
   (mergeRenumberClauses eqv fill nat ins out).all (·.2)
 
-/-- merge and drop duplicates; `cs` is a certificate (one object-number offset per input): the
-merged table before the dropping is the inputs shifted by these offsets -/
-def mergeDropDupClauses [LT α] [DecidableLT α] (fill : α → α) (cs : List α) (ins : List (Motl α)) (out : Motl α) :
-    List (String × Bool) :=
-  let ms := List.zipWith shiftObj cs ins
-  [("merge-keeps-each-inputs-grouping", cs.length == ins.length),
-   ("merge-object-numbers-never-collide", pairwiseB disjointObjB ms)]
-  ++ dropDupClauses eqv fill .subtomo_id .score false ms.flatten out
+/-- the inputs, ids read after loading, shifted by a certificate `cs`, each still tagged -/
+def shiftedInputs (fill : α → α) (cs : List α) (ins : List (Bool × Motl α)) : List (Bool × Motl α) :=
+  List.zipWith (fun c x => (x.1, shiftObj c (x.2.map (loadIds (fillIf fill x.1))))) cs ins
 
-def checkMergeDropDup [LT α] [DecidableLT α] (fill : α → α) (cs : List α) (ins : List (Motl α)) (out : Motl α) : Bool :=
+/-- merge and drop duplicates; `cs` is a certificate (one object-number offset per input): the
+merged table before the dropping is the inputs shifted by these offsets; a surviving row is a row of
+one (shifted) input, missing values filled only if that input was a bare DataFrame -/
+def mergeDropDupClauses [LT α] [DecidableLT α] (fill : α → α) (cs : List α) (ins : List (Bool × Motl α)) (out : Motl α) :
+    List (String × Bool) :=
+  let ms := shiftedInputs fill cs ins
+  [("merge-keeps-each-inputs-grouping", cs.length == ins.length),
+   ("merge-object-numbers-never-collide", pairwiseB disjointObjB (ms.map (·.2))),
+   ("other-fields-unchanged",
+      out.all (fun q => ms.any (fun x => x.2.any (fun p => sameB eqv (fillIf fill x.1) (fun _ => false) p q))))]
+  ++ dropDupClauses eqv fill .subtomo_id .score false (ms.map (·.2)).flatten out
+
+def checkMergeDropDup [LT α] [DecidableLT α] (fill : α → α) (cs : List α) (ins : List (Bool × Motl α)) (out : Motl α) : Bool :=
   (mergeDropDupClauses eqv fill cs ins out).all (·.2)
 
 /-! ### sequential object renumbering -/
@@ -196,8 +214,9 @@ structure Obs (α : Type) where
   parts : List (Motl α) := []
   hints : List (List α) := []
 
-def rawInputs (before after : List (Bool × Motl α)) (l : Motl α) : List (Motl α) :=
-  before.map (·.2) ++ [l] ++ after.map (·.2)
+/-- the inputs of a merge as the caller hands them over (tag = bare DataFrame?), before any loading -/
+def rawInputs (before after : List (Bool × Motl α)) (selfDf : Bool) (l : Motl α) : List (Bool × Motl α) :=
+  before ++ [(selfDf, l)] ++ after
 
 def stepClauses [LT α] [DecidableLT α] (fill : α → α) (nat : Nat → α) : Op α → Motl α → Obs α → List (String × Bool)
   | .subset f vs, l, o => [("subset-holds-exactly-the-matching-rows-grouped-by-value", checkSubset eqv f vs l o.out)]
@@ -205,11 +224,11 @@ def stepClauses [LT α] [DecidableLT α] (fill : α → α) (nat : Nat → α) :
   | .splitPick f i, l, o => splitClauses eqv f l o.parts ++ [("split-pick", listEqB eqv o.out (o.parts.getD i []))]
   | .intersect f other, l, o => intersectClauses eqv fill f l other o.out
   | .dropDup dup dec asc, l, o => dropDupClauses eqv (fun v => v) dup dec asc l o.out
-  | .mergeRenumber b a _, l, o => mergeRenumberClauses eqv fill nat (rawInputs b a l) o.out
-  | .mergeDropDup b a _, l, o =>
-    match o.hints.find? (fun cs => checkMergeDropDup eqv fill cs (rawInputs b a l) o.out) with
+  | .mergeRenumber b a s, l, o => mergeRenumberClauses eqv fill nat (rawInputs b a s l) o.out
+  | .mergeDropDup b a s, l, o =>
+    match o.hints.find? (fun cs => checkMergeDropDup eqv fill cs (rawInputs b a s l) o.out) with
     | some _ => []
-    | none => mergeDropDupClauses eqv fill (o.hints.headD []) (rawInputs b a l) o.out ++ [("merge-dropdup-no-certificate", false)]
+    | none => mergeDropDupClauses eqv fill (o.hints.headD []) (rawInputs b a s l) o.out ++ [("merge-dropdup-no-certificate", false)]
   | .renumberParticles, l, o => renumberParticlesClauses eqv nat l o.out
   | .renumberObjects start, l, o => renumberObjectsClauses eqv nat start l o.out
 
